@@ -91,6 +91,8 @@ class AminoAcidSeqDict(dict):
         Returns:
             A set of unique peptides as string.
         """
+        if exception == 'auto':
+            exception = 'trypsin_exception' if rule == 'trypsin' else None
         pool = set()
         protein: AminoAcidSeqRecord
         it = iter(self.values())
